@@ -216,6 +216,23 @@ func exec11on(in *inst11, tr *Trace11, probe func(string)) (string, *fail) {
 
 func genAztecText(r *kit.RNG, n int) []int {
 	var out []int
+	if r.Chance(1, 10) {
+		// almost nothing but two-character punctuation codes: more than two
+		// decoded bytes per five message bits
+		pairs := []string{"\r\n", ". ", ", ", ": "}
+		if r.Bool() {
+			out = append(out, 'O', 'K')
+		}
+		for len(out) < n {
+			for _, c := range []byte(pairs[r.Intn(4)]) {
+				out = append(out, int(c))
+			}
+		}
+		if len(out) > n && n >= 2 {
+			out = out[:n-n%2]
+		}
+		return out
+	}
 	for len(out) < n {
 		seg := r.Range(1, 12)
 		switch r.Intn(9) {
@@ -243,8 +260,14 @@ func genAztecText(r *kit.RNG, n int) []int {
 			}
 		case 5:
 			pairs := []string{"\r\n", ". ", ", ", ": "}
-			for _, c := range []byte(pairs[r.Intn(4)]) {
-				out = append(out, int(c))
+			cnt := 1
+			if r.Chance(1, 3) {
+				cnt = r.Range(3, 14) // a run of two-character codes (many bytes per code word)
+			}
+			for k := 0; k < cnt; k++ {
+				for _, c := range []byte(pairs[r.Intn(4)]) {
+					out = append(out, int(c))
+				}
 			}
 		case 6:
 			cnt := seg
@@ -355,6 +378,12 @@ func report11(c *kit.Ctx, tr *Trace11, f *fail, minimise bool) {
 		// location failures are keyed by the pose class they occur in (symbol
 		// family and pixels per module), clean or damaged alike
 		key = fmt.Sprintf("notfound/reader/%s@scale%d", k, tr.Scale)
+		if tr.Quiet == 0 {
+			// a symbol that touches the image border takes the detector's
+			// fallback centre search; that path shows no failures on the
+			// unchanged tree (0 of 24000 compact poses) and is keyed separately
+			key += ",noquietzone"
+		}
 	}
 	c.Violate(f.class, key, f.detail, tr)
 }
@@ -494,7 +523,7 @@ func C11() *kit.Spec {
 				t2 := *tr
 				t2.Path = path
 				if path == "reader" {
-					t2.Scale, t2.Rot, t2.Quiet = r.Range(2, 5), r.Intn(4), r.Range(2, 6)
+					t2.Scale, t2.Rot, t2.Quiet = r.Range(2, 5), r.Intn(4), r.Range(0, 6)
 					if s.Size > 100 && t2.Scale > 3 {
 						t2.Scale = 3
 					}
@@ -547,17 +576,33 @@ func C11() *kit.Spec {
 				if r.Chance(1, 2) {
 					n = r.Range(1, t)
 				}
-				for _, w := range r.Sample(len(s.Words), n) {
+				blot := r.Chance(1, 4) // a solid dark or light blot: the damaged words read all ones / all zeros
+				pool := len(s.Words)
+				if blot && s.DataWords >= n {
+					pool = s.DataWords // data words only
+				}
+				for _, w := range r.Sample(pool, n) {
 					d := r.Range(1, 1<<uint(ws)-1)
 					if r.Chance(1, 5) {
 						d = 1<<uint(ws) - 1
+					}
+					if blot {
+						if r.Bool() {
+							d = s.Words[w] // -> reads all zeros
+						} else {
+							d = s.Words[w] ^ (1<<uint(ws) - 1) // -> reads all ones
+						}
+						if d == 0 {
+							d = 1
+						}
+						probe("probe.blot_fault")
 					}
 					t2.Faults = append(t2.Faults, [2]int{w, d})
 				}
 				t2.Path = "decoder"
 				if i%2 == 1 {
 					t2.Path = "reader"
-					t2.Scale, t2.Rot, t2.Quiet = r.Range(2, 4), r.Intn(4), r.Range(2, 6)
+					t2.Scale, t2.Rot, t2.Quiet = r.Range(2, 4), r.Intn(4), r.Range(0, 6)
 					if s.Size > 100 {
 						t2.Scale = 2
 					}
